@@ -249,7 +249,7 @@ PROPS = {
     "C20": {
         "props": "TrackVerif.CLI.PropsC20",
         "streams": [("CL", 150, 3000)],
-        "clauses": ["cl.precedence", "cl.config_search", "cl.exit_status", "cl.silent_failure", "cl.spurious_failure", "cl.pipeline", "cl.output_target", "cl.laptimes", "cl.no_crash", "cl.no_hang", "cl.model_vs_spec"],
+        "clauses": ["cl.precedence", "cl.config_search", "cl.exit_status", "cl.silent_failure", "cl.spurious_failure", "cl.pipeline", "cl.gopro_pipeline", "cl.output_target", "cl.laptimes", "cl.no_crash", "cl.no_hang", "cl.model_vs_spec"],
         "rule": "the tracktools binary is built from /repo's working tree and run in a scratch directory with HOME redirected: commands convert / gopro convert / gopro laptimes / gopro render; every flag independently given or not "
                 "(incl. empty values and repeated --tags), config file explicit (--config), ./.tracktools.toml, $HOME/.tracktools.toml, both (cwd must win), none (embedded default) or an explicit file that does not exist; config content states "
                 "each option with probability 3/5 (TOML integers into float fields, nested Start table, foreign sections, unknown keys); the effective options are read from the binary's own 'Loaded config' trace line and compared with the Lean model = spec; "
